@@ -101,6 +101,10 @@ pub enum Expr {
     Ascribe(Box<Expr>, Ty),
     /// call of a user procedure `p!()` (top-level statements only)
     ProcCall(String),
+    /// `f(a, *[b, c])`
+    CallSpread(String, Vec<Expr>, Vec<Expr>),
+    /// `recv.m(pos, k := v)`
+    MethodKw(Box<Expr>, &'static str, Vec<Expr>, Vec<(&'static str, Expr)>),
     /// `print! args` used as a value (NoneType)
     PrintCall(Vec<Expr>),
 }
@@ -182,10 +186,11 @@ pub struct GenCfg {
     pub no_if_expr: bool,
     pub no_range_loops: bool,
     pub no_if_stmt: bool,
+    pub no_loops_in_if: bool,
 }
 impl Default for GenCfg {
     fn default() -> Self {
-        GenCfg { max_stmts: 14, max_depth: 4, wild_strings: false, boundary_literals: true, loops: true, functions: true, exits: true, negative_bias: false, avoid_known: true, unused_defs: false, no_while: false, no_interp: false, no_defaults: false, no_if_expr: false, no_range_loops: false, no_if_stmt: false }
+        GenCfg { max_stmts: 14, max_depth: 4, wild_strings: false, boundary_literals: true, loops: true, functions: true, exits: true, negative_bias: false, avoid_known: true, unused_defs: false, no_while: false, no_interp: false, no_defaults: false, no_if_expr: false, no_range_loops: false, no_if_stmt: false, no_loops_in_if: false }
     }
 }
 
@@ -346,6 +351,17 @@ impl<'a> Gen<'a> {
             }
         }
         self.feat(if f.is_lambda { "call:lambda" } else { "call:function" });
+        // spread the trailing positional arguments: `f(a, *[b, c])`
+        if !self.cfg.no_defaults && kw.is_empty() && !f.is_lambda && pos.len() >= 2 && pos.len() == f.params.len() && self.t.chance(1, 3) {
+            let n = f.params.len();
+            let k = 1 + self.t.pick(n - 1); // spread the last k
+            let tys: Vec<&Ty> = f.params[n - k..].iter().map(|p| &p.ty).collect();
+            if tys.iter().all(|t| **t == *tys[0]) && f.params.iter().all(|p| p.default.is_none()) {
+                self.feat("call:spread-args");
+                let spread = pos.split_off(n - k);
+                return Expr::CallSpread(f.name.clone(), pos, spread);
+            }
+        }
         Expr::Call(f.name.clone(), pos, kw)
     }
 
@@ -626,6 +642,12 @@ impl<'a> Gen<'a> {
                 let l = self.expr(&Ty::List(Box::new(et.clone())), depth + 1);
                 Expr::In(Box::new(self.expr(&et, depth + 1)), Box::new(l))
             }
+            Ty::List(e) if **e == Ty::Str && !self.cfg.no_defaults => {
+                self.feat("method:keyword-arg");
+                let sep = [",", " ", "a", "x y"][self.t.pick(4)];
+                let recv = self.atom(&Ty::Str);
+                Expr::MethodKw(Box::new(recv), "split", vec![Expr::Str(sep.into())], vec![("maxsplit", Expr::Nat(self.t.pick(3) as u64))])
+            }
             Ty::List(_) => self.literal(ty),
         }
     }
@@ -871,7 +893,8 @@ impl<'a> Gen<'a> {
                 self.feat("stmt:if");
                 let cond = self.expr(&Ty::Bool, 1);
                 let saved = (self.vars.clone(), self.funcs.len());
-                self.loop_depth += 1; // definitions inside stay local
+                let bump = if self.cfg.no_loops_in_if { 2 } else { 1 };
+                self.loop_depth += bump; // definitions inside stay local
                 let n = 1 + self.t.pick(2);
                 let then = self.block(n, false);
                 self.vars = saved.0.clone();
@@ -883,7 +906,7 @@ impl<'a> Gen<'a> {
                 } else {
                     None
                 };
-                self.loop_depth -= 1;
+                self.loop_depth -= bump;
                 self.vars = saved.0;
                 self.funcs.truncate(saved.1);
                 let cond_var = self.fresh("b");
@@ -1032,6 +1055,8 @@ fn expr_calls(e: &Expr, name: &str) -> bool {
         Expr::Bin(_, l, r) | Expr::Index(l, r) | Expr::In(l, r) => expr_calls(l, name) || expr_calls(r, name),
         Expr::Not(x) | Expr::Neg(x) | Expr::Ascribe(x, _) => expr_calls(x, name),
         Expr::Builtin(_, a) | Expr::List(a) | Expr::PrintCall(a) => a.iter().any(|x| expr_calls(x, name)),
+        Expr::CallSpread(f, a, b) => f == name || a.iter().chain(b.iter()).any(|x| expr_calls(x, name)),
+        Expr::MethodKw(r, _, a, kw) => expr_calls(r, name) || a.iter().any(|x| expr_calls(x, name)) || kw.iter().any(|(_, x)| expr_calls(x, name)),
         Expr::Method(r, _, a) => expr_calls(r, name) || a.iter().any(|x| expr_calls(x, name)),
         Expr::If(c, a, b) => expr_calls(c, name) || expr_calls(a, name) || expr_calls(b, name),
         Expr::Interp(parts) => parts.iter().any(|(_, e)| e.as_ref().map(|x| expr_calls(x, name)).unwrap_or(false)),
@@ -1122,6 +1147,16 @@ pub fn erg_expr(e: &Expr) -> String {
         }
         Expr::Ascribe(e, t) => format!("({}: {})", erg_expr(e), t.erg()),
         Expr::ProcCall(p) => format!("{p}()"),
+        Expr::CallSpread(f, pos, spread) => {
+            let mut a: Vec<String> = pos.iter().map(erg_expr).collect();
+            a.push(format!("*[{}]", spread.iter().map(erg_expr).collect::<Vec<_>>().join(", ")));
+            format!("{f}({})", a.join(", "))
+        }
+        Expr::MethodKw(r, m, pos, kw) => {
+            let mut a: Vec<String> = pos.iter().map(erg_expr).collect();
+            a.extend(kw.iter().map(|(k, v)| format!("{k} := {}", erg_expr(v))));
+            format!("({}).{m}({})", erg_expr(r), a.join(", "))
+        }
         Expr::PrintCall(args) => format!("print! {}", args.iter().map(erg_expr).collect::<Vec<_>>().join(", ")),
     }
 }
@@ -1173,6 +1208,16 @@ pub fn py_expr(e: &Expr) -> String {
         }
         Expr::Ascribe(e, _) => py_expr(e),
         Expr::ProcCall(p) => format!("{}()", p.trim_end_matches('!')),
+        Expr::CallSpread(f, pos, spread) => {
+            let mut a: Vec<String> = pos.iter().map(py_expr).collect();
+            a.push(format!("*[{}]", spread.iter().map(py_expr).collect::<Vec<_>>().join(", ")));
+            format!("{f}({})", a.join(", "))
+        }
+        Expr::MethodKw(r, m, pos, kw) => {
+            let mut a: Vec<String> = pos.iter().map(py_expr).collect();
+            a.extend(kw.iter().map(|(k, v)| format!("{k}={}", py_expr(v))));
+            format!("({}).{m}({})", py_expr(r), a.join(", "))
+        }
         Expr::PrintCall(args) => format!("print({})", args.iter().map(py_expr).collect::<Vec<_>>().join(", ")),
     }
 }
